@@ -965,9 +965,10 @@ Fixpoint req_prefix (l : list attr) (req : nat) : bool :=
   | a :: r, S n => negb (is_opt_attr a) && req_prefix r n
   end.
 
-(* attribute.go:64-72: a given_or_derived attribute has the implicit value undef *)
+(* attribute.go:61-72: a given_or_derived attribute has the implicit value undef, a constant has a value *)
 Definition attr_wf (a : attr) : bool :=
-  negb (kind_eqb (a_kind a) KGivenOrDerived) || opt_value_eqb (a_value a) (Some VUndef).
+  (negb (kind_eqb (a_kind a) KGivenOrDerived) || opt_value_eqb (a_value a) (Some VUndef))
+  && (negb (kind_eqb (a_kind a) KConstant) || has_value a).
 
 (* the layout invariant of attributesInfo that the constructors, Get, InitHash and Equals rely on *)
 Definition info_wf (i : ainfo) : bool :=
